@@ -248,6 +248,10 @@ type expandEnv struct {
 var _ expand.WriteEnviron = expandEnv{}
 
 func (e expandEnv) Get(name string) expand.Variable {
+	if name == "" {
+		// e.g. following an empty name reference, like "declare -n ref=; echo $ref"
+		return expand.Variable{}
+	}
 	return e.r.lookupVar(name)
 }
 
